@@ -501,6 +501,12 @@ func runC14(c *Ctx) {
 				j.text = asm.Render(p, randStyle(r, progNames(p)))
 				if r.Chance(1, 3) {
 					j.text += "\ndat undefined_a, undefined_b\n dat undefined_c\n"
+				} else if r.Chance(1, 3) {
+					// undefined names where only the compiler looks: in an ;assert, and a label that sits on an ORG line
+					j.text += fmt.Sprintf("\n;assert undefined_in_assert_%d + 1\n", r.Intn(5))
+					if r.Bool() {
+						j.text += fmt.Sprintf("onorg%d org 0\ndat onorg%d\n", r.Intn(5), r.Intn(5))
+					}
 				}
 				if r.Chance(1, 25) {
 					// a long chain of EQU aliases (every name stands for the next one): whatever order the symbol
